@@ -15,6 +15,9 @@ ops:  add <w> <x> | flush <w> | wait <w> | tick | rel <first task of batch> ok|p
       unhold <w>                               disarm and release caller w
       hold bg fremoved | unhold bg             the same for the background flusher(s): parked inside the RemoveAll of
                                                the tick / quit Flush
+      hold bg stop                             a flusher that has DECIDED to quit parks in ticker.Stop(): after shallQuit,
+                                               before its deferred Flush (model pc `fEnter quit`); skip while armed for the other point
+      rel <first> ok|panic|epanic|rpanic       the gated callback returns / panics with a string / an error value / a run-time error
       bhold <w>                                caller w takes pe.wgBarrier and parks inside it (skip if it is taken)
       brel wait|flush|none                     that caller releases it and goes straight on with Wait / Flush / nothing
       (a task is the number 8*id + byte size; only the chunk executor looks at the size)
@@ -22,6 +25,7 @@ obs:  [d=0|1] w=<class per caller> fl=<sorted classes of flushers> c=<container>
       g=<guarded> cb=<batches inside the callback> nf=<tasks whose callback ended> [all=<…>]   | skip
       [ends=<callback ends of this line in order> wret=<caller>:<k>,…]   only when a Wait returned in this line: it
                                                returned after the first k of `ends` (monitor only, not compared)
+      [mut=<first tasks>]                      batches that showed other tasks when their gated callback looked again at its end (monitor only)
       | stuck moving=<state@frame,…>           the harness watchdog: no quiescence within its bound
 -/
 import Std.Data.HashSet
